@@ -1,6 +1,7 @@
 package search
 
 import (
+	"runtime"
 	"bytes"
 	"context"
 	"fmt"
@@ -24,7 +25,33 @@ import (
 
 // C19: shard reloads are safe under concurrent search and converge to disk.
 
-func init() { hx.Register("C19", "C19", runC19) }
+func init() {
+	hx.Register("C19", "C19", func(t *testing.T, tp *simrt.Tape, keep bool) hx.Result { return runC19(t, tp, keep, false) })
+	// gc mode: the collector only runs at scheduler-chosen points (GOGC off) and
+	// every such point runs the finalizers, i.e. closes (unmaps) replaced shards
+	// that nothing references any more.
+	hx.Register("C19/gc", "C19", func(t *testing.T, tp *simrt.Tape, keep bool) hx.Result { return runC19(t, tp, keep, true) })
+}
+
+type c19Sentinel struct{ x [16]byte }
+
+// c19FinDone is deliberately created outside any synctest bubble: the runtime's
+// finalizer goroutine sends on it.
+var c19FinDone = make(chan struct{}, 64)
+
+// c19ForceGC collects and waits until the finalizers queued by the collection
+// have run (a sentinel's finalizer is queued behind them); twice, because a
+// finalizer (rankedShard.Close) frees objects that carry further finalizers.
+func c19ForceGC() {
+	for round := 0; round < 2; round++ {
+		s := &c19Sentinel{}
+		runtime.SetFinalizer(s, func(*c19Sentinel) { c19FinDone <- struct{}{} })
+		s = nil
+		runtime.GC()
+		runtime.GC()
+		<-c19FinDone
+	}
+}
 
 // ---- versioned shard images -------------------------------------------------
 
@@ -124,9 +151,13 @@ func tokenVer(tok string) (string, int) {
 	return tok[:i], v
 }
 
-func runC19(t *testing.T, tp *simrt.Tape, keepTrace bool) hx.Result {
+func runC19(t *testing.T, tp *simrt.Tape, keepTrace bool, gcMode bool) hx.Result {
 	cfg := simrt.DrawConfig(tp)
 	cfg.KeepTrace = keepTrace
+	if gcMode {
+		cfg.GCPerMille = []int{10, 40, 120}[tp.Gen(3)]
+		defer c19ForceGC() // leave no garbage (and no pending finalizers) for the next run
+	}
 	cfg.MaxProcs = []int{1, 2, 4, 16}[tp.Gen(4)]
 	cfg.MaxSteps = 400000
 	cfg.Horizon = 6 * time.Hour
@@ -152,7 +183,11 @@ func runC19(t *testing.T, tp *simrt.Tape, keepTrace bool) hx.Result {
 	var changes []change
 	for i := 0; i < nChanges; i++ {
 		c := change{p: tp.Gen(4), sleep: sleeps[tp.Gen(len(sleeps))]}
-		switch tp.Gen(6) {
+		switch tp.Gen(7) {
+		case 6:
+			// replaced by a file that carries an OLDER mtime than the loaded version
+			// (two overlapping builds finishing out of order, cp -p / rsync -a restore)
+			c.kind = "write-older"
 		case 0:
 			c.kind = "delete"
 		case 1:
@@ -228,7 +263,9 @@ func runC19(t *testing.T, tp *simrt.Tape, keepTrace bool) hx.Result {
 		simfsn.Reset(faults)
 		defer func() { simos.Watch = nil }()
 		indexer := simos.NewProc("indexer", simos.Plan{})
-		writeShard := func(p, ver int) {
+		firstWrite := time.Now()
+		olderSeq := 0
+		writeShard := func(p, ver int, older bool) {
 			im := wShard(p, ver)
 			final := wPath(dir, p)
 			f, err := simos.CreateTemp(dir, filepath.Base(final)+".*.tmp")
@@ -237,6 +274,14 @@ func runC19(t *testing.T, tp *simrt.Tape, keepTrace bool) hx.Result {
 			}
 			f.Write(im.data)
 			f.Close()
+			if older {
+				// distinct from every other mtime of the run, and before all of them
+				olderSeq++
+				old := firstWrite.Add(-time.Duration(olderSeq) * time.Hour)
+				if err := simos.Chtimes(f.Name(), old, old); err != nil {
+					panic(err)
+				}
+			}
 			// a fresh shard has no tombstones: drop a stale sidecar first (as the builder does)
 			if _, err := os.Stat(final + ".meta"); err == nil {
 				simos.Remove(final + ".meta")
@@ -277,6 +322,9 @@ func runC19(t *testing.T, tp *simrt.Tape, keepTrace bool) hx.Result {
 		ds := &directorySearcher{Streamer: ss, directoryWatcher: dw}
 		var searcher zoekt.Streamer = &typeRepoSearcher{Streamer: ds}
 
+		if gcMode {
+			simrt.SetGCHook(c19ForceGC)
+		}
 		simrt.OnStep(func() error {
 			if viol != nil {
 				return fmt.Errorf("violation")
@@ -330,8 +378,8 @@ func runC19(t *testing.T, tp *simrt.Tape, keepTrace bool) hx.Result {
 			for _, c := range changes {
 				simrt.Sleep(c.sleep)
 				switch c.kind {
-				case "write":
-					writeShard(c.p, nextVer)
+				case "write", "write-older":
+					writeShard(c.p, nextVer, c.kind == "write-older")
 					disk[c.p] = &diskFile{ver: nextVer, tomb: map[string]bool{}}
 					nextVer++
 				case "delete":
